@@ -126,7 +126,7 @@ func cmdCheck(args []string) int {
 	// select functions
 	var keys []string
 	for k, c := range prog.specs.Contracts {
-		if c.Trusted {
+		if c.Trusted && !c.ArgsOnly {
 			continue
 		}
 		if len(c.Props) == 0 && len(c.SafetyProps) == 0 && len(c.TermProps) == 0 {
